@@ -338,7 +338,7 @@ def run_check(prop, tier, seed):
         lines.append(f'VIOLATION property={prop} replay={path}')
         print(f'  monitor={v["monitor"]} key={v["key"]}: {v["message"]}'[:1500])
     for key, info in listed.items():
-        print(f'KNOWN-FINDING: property={prop} {info["entry"]["text"]} (matched {info["count"]} witness(es) this run)')
+        print(f'KNOWN-FINDING: {info["entry"]["text"]} (matched {info["count"]} witness(es) this run)')
     for line in lines:
         print(line)
 
